@@ -177,7 +177,7 @@ def gen_cases(tier, seed):
         srcargs = [sp(s, sh in ("tree", "deep", "emptydir")) for s, sh in zip(sources, shapes)]
         if flag == "--glob":
             args.append("--glob")
-            srcargs = [r.choice(["s*", "s?", "s[0-9]"])]
+            srcargs = [r.choice(["s*", "s?", "s[0-9]"])] if r.random() < 0.7 else ["s*", "s?"]    # overlapping patterns select an entry twice
             if spell == "abs":
                 srcargs = ["@ROOT@/" + srcargs[0]]
             # every s<k> in the root is selected
@@ -217,7 +217,8 @@ def run_case(case):
             return res
         post = tree.snapshot(root)
         try:
-            mapping, dest_rel = model.map_sources(pre, root, case["sources"], "dst", no_target_dir=case["T"])
+            srcs_ = case["sources"] * 2 if case["flag"] == "--glob" and len([a for a in case["args"] if a.endswith("s*") or a.endswith("s?")]) > 1 else case["sources"]
+            mapping, dest_rel = model.map_sources(pre, root, srcs_, "dst", no_target_dir=case["T"])
         except model.ModelSkip as e:
             res["inconc"].append("model-skip")
             return res
